@@ -197,7 +197,9 @@ def cases(maxlen, thorough):
                     continue
                 for n_inner in ((1, 2) if main else (1,)):
                     for st in strategies:
-                        out.append({"v": v, "mode": "socks5", "strategy": st, "steps": [["socks", offer + "/" + cred]] + [["origin", "none"]] * n_inner})
+                        for delivery in ("split", "whole"):  # one segment per message / the whole handshake pipelined
+                            out.append({"v": v, "mode": "socks5", "strategy": st,
+                                        "steps": [["socks", offer + "/" + cred + "/" + delivery]] + [["origin", "none"]] * n_inner})
         # 3. sequences on one connection
         if not main:
             continue
@@ -240,7 +242,7 @@ def responder(k, msg, end):
 def step_bytes(v, mode, k, kind, pres):
     proxy_hdr = mode in ("regular", "upstream")
     if kind == "socks":
-        offer, cred = pres.split("/")
+        offer, cred, delivery = pres.split("/")
         pr = pairs(v).get(cred)
         if pr is None:
             return None, None
@@ -252,7 +254,7 @@ def step_bytes(v, mode, k, kind, pres):
         hello = SOCKS_OFFERS[offer]
         auth = b"\x01" + bytes([len(u)]) + u + bytes([len(p)]) + p
         request = b"\x05\x01\x00\x03\x0borigin.test\x00\x50"
-        return [hello, auth, request], status
+        return ([hello, auth, request] if delivery == "split" else [hello + auth + request]), status
     hdr, status = presentation(v, pres, proxy_hdr)
     if hdr is None:
         return None, None
@@ -322,9 +324,13 @@ def upstream_requests(obs):
 def feats(case, kind, pres):
     transport = "socks5" if kind == "socks" else "http-basic"
     p = pres.split("/")[1] if kind == "socks" else pres
-    f = {"mode": case["mode"], "path": kind, "pres": p, "validator": case["v"], "transport": transport}
+    role = p if kind == "socks" else PRES[p][0]
+    pair = pairs(case["v"]).get(role if role not in (None, "invalid", "ambiguous") else "valid")
+    f = {"mode": case["mode"], "path": kind, "pres": p, "validator": case["v"], "transport": transport,
+         "pw_colon": bool(pair and role is not None and ":" in pair[1])}
     if kind == "socks":
         f["offer"] = pres.split("/")[0]
+        f["delivery"] = pres.split("/")[2]
     return f
 
 
@@ -334,7 +340,7 @@ def judge(case, obs, t: Tally, verbose=False):
     cred_header = b"proxy-authorization" if proxy else b"authorization"
     if "configure_error" in obs:
         t.case(case, nontrivial=True, key=repr(case))
-        t.bad("accepted_iff_validator_accepts", {"path": "configure", "pres": "colon" if v == "single_colon" else "valid", "validator": v, "transport": "option"},
+        t.bad("accepted_iff_validator_accepts", {"path": "configure", "pw_colon": ":" in option_value(v).split(":", 1)[-1], "validator": v, "transport": "option"},
               case, "proxyauth=%r configures a validator" % option_value(v), obs["configure_error"])
         return
     if obs.get("crash") or obs.get("errors") or not obs.get("finished"):
